@@ -109,6 +109,13 @@ def select(ctx, confs, rng):
                     and c["scripts"][-1][0]["op"].startswith("image.copy") and (len(c["scripts"]) == 2 or c["par"] == 2) \
                     and c["tmo"] in ("default", "none" if c["par"] == 1 else "default"):
                 chosen[i] = True
+    # round 5: every config generated for the registry rate-limit headers (absent is the default:
+    # enough / too low never recovering / too low then recovering), for a failing read of a blob BODY
+    # (wrong bytes / cut off; as often as the per-host limit of concurrent requests, then a healthy
+    # script) and for the host setting reqConcurrent: 1
+    for i, c in enumerate(confs):
+        if c["feat"] not in ("full", "min"):
+            chosen[i] = True
     # producer -> write pairs: what is written (object of a get of an image / of an index / of a head
     # request / blob / config) x where to, relative to where it came from (same repository, other
     # repository of the registry, other registry, layout); the first config of every class
@@ -194,6 +201,8 @@ def drift_of(conf, trace):
             got = (e[st_f], e[abs_f])
             if conf["feat"] == "min" and e["op"] == "repo.ls":
                 continue  # pages of one entry: repo.ls returns the first page only, (D) does not model paging
+            if conf["feat"].split("+")[0] in ("rl-low", "rl-rec", "dmg", "trunc"):
+                continue  # (D) does not model rate limits / damaged blob bodies: the driver realises them
             if want != got:
                 notes.append("%s %s s%d k%d: model %s, code %s" % (mode, e["op"], e["s"], e["k"], want, got))
         if not (conf["par"] > 0 and mode == "nor"):
